@@ -441,6 +441,85 @@ func runC20(c *Ctx) {
 		}
 	}
 
+	// one writer at a time per websocket connection (gorilla/websocket: concurrent writers corrupt frames or panic)
+	{
+		rWs := c.Rule("websocket-writes-serialised-per-connection", "every write to a websocket connection (WriteJSON / WriteMessage) is made with a mutex held, and that mutex is shared by all goroutines writing to the same connection: it is a field of the API object, or it is created where the connection is (not once per goroutine started in a loop over one connection)")
+		isWsWrite := func(in ssa.Instruction) bool {
+			call, ok := in.(*ssa.Call)
+			if !ok {
+				return false
+			}
+			o := CalleeObj(&call.Call)
+			return o != nil && o.Pkg() != nil && o.Pkg().Path() == "github.com/gorilla/websocket" && (o.Name() == "WriteJSON" || o.Name() == "WriteMessage")
+		}
+		n := 0
+		for _, f := range p.FuncsOfPkg("api") {
+			for _, w := range FindInstrs(f, isWsWrite) {
+				n++
+				c.Touch(f)
+				held := ls.HeldAt(w)
+				if !c.Check(len(held) > 0, rWs, "locked:"+p.FuncKey(f), p.InstrPos(w), "a mutex is held at the write", "a websocket write is made without any mutex held: two log streams of one connection write concurrently") {
+					continue
+				}
+				// a mutex that is a parameter of the writing function: compare, at the go statements that start the
+				// writer, where the mutex and where the connection come from
+				okShare := true
+				AllInstrs(f, func(x ssa.Instruction) {
+					lc, isC := x.(*ssa.Call)
+					if !isC {
+						return
+					}
+					o := CalleeObj(&lc.Call)
+					if o == nil || o.Name() != "Lock" || o.Pkg() == nil || o.Pkg().Path() != "sync" || len(lc.Call.Args) == 0 {
+						return
+					}
+					prm, isPrm := lc.Call.Args[0].(*ssa.Parameter)
+					if !isPrm {
+						return
+					}
+					mi := -1
+					for i, q := range f.Params {
+						if q == prm {
+							mi = i
+						}
+					}
+					ci := -1
+					wc := w.(*ssa.Call)
+					for i, q := range f.Params {
+						if len(wc.Call.Args) > 0 && ssa.Value(q) == wc.Call.Args[0] {
+							ci = i
+						}
+					}
+					if mi < 0 || ci < 0 {
+						return
+					}
+					for _, cr := range p.Callers(f) {
+						g, isGo := cr.Instr.(*ssa.Go)
+						if !isGo {
+							continue
+						}
+						lp := InnermostLoopOf(g)
+						if lp == nil {
+							continue
+						}
+						inLoop := func(v ssa.Value) bool {
+							if in2, ok := v.(ssa.Instruction); ok {
+								return lp.Blocks[in2.Block()]
+							}
+							return false
+						}
+						args := g.Call.Args
+						if mi < len(args) && ci < len(args) && inLoop(args[mi]) && !inLoop(args[ci]) {
+							okShare = false
+						}
+					}
+				})
+				c.Check(okShare, rWs, "shared:"+p.FuncKey(f), p.InstrPos(w), "the mutex is shared by all writers of the connection", "the mutex held at the websocket write is created once per writer goroutine while the connection is shared by all writers started in that loop: a request naming several processes makes the writers write concurrently - corrupted frames, an abnormal close and a send on a closed channel in the process's output goroutine (the supervisor crashes)")
+			}
+		}
+		c.Check(n >= 1, rWs, "floor:websocket-writes", "", "websocket write sites found", "no websocket write site found in the api package")
+	}
+
 	// pointer escape of the live state record
 	rEsc := c.Rule("state-pointer-escape", "no exported ProjectRunner method returns a pointer to a live ProcessState record (callers read its fields without any lock)")
 	for _, f := range p.FuncsOfPkg("app") {
@@ -453,7 +532,7 @@ func runC20(c *Ctx) {
 				// does it return the record itself (not a copy)?
 				live := false
 				for _, ret := range returnsOf(f) {
-					srcs, _ := p.Sources(ret.Results[i])
+					srcs, _ := p.Sources(RetVals(ret)[i])
 					for _, l := range srcs {
 						switch x := l.(type) {
 						case *ssa.Alloc:
